@@ -73,7 +73,10 @@ def one_case(args):
         desc = "%s: %d packets, %s, signal %s at %s" % (kind, npk, " ".join(argv[1:6]), signum.name, {k: v for k, v in kw.items() if k.startswith("signal_after")})
     elif kind in ("close_view", "close_data", "close_stats"):
         # -S stdout: many errors make the statistics larger than the pipe buffer, so that the write is in flight when the reader goes away
-        s = big_stream(rng, npk, errors=(kind == "close_stats"))
+        if kind == "close_data" and rng.random() < 0.4:
+            # one long link: every packet matches, so the writer's own buffering thresholds are crossed while the reader of stdout goes away
+            npk, one_link = (20000 if tier == "quick" else rng.choice([20000, 50000])), 1
+        s = big_stream(rng, npk, errors=(kind == "close_stats"), nlinks=one_link)
         data = s.serialize()
         p = os.path.join(wd, "c%d.raw" % case)
         write_file(p, data)
